@@ -49,7 +49,7 @@ _validate_reference()
 
 @st.composite
 def _cases(draw, max_n=3000, max_p=6, lead0=None):
-    spec = draw(gen.record_specs(min_n=2, max_n=max_n, allow_int=False))
+    spec = draw(gen.record_specs(min_n=2, max_n=max_n, allow_int=["view", "negstride", "readonly"]))
     dt = draw(gen.dts(1e-4, 3.0))
     ratios = draw(gen.period_ratios(0.2, 2e4, 1, max_p))
     case = {"rec": spec, "dt": dt, "ratios": ratios, "xi": draw(gen.xis())}
@@ -113,7 +113,9 @@ def exact(case, ctx):
     xi = case["xi"]
     _classify(ctx, case, a)
     periods = _periods(case)
-    ru, rv, ra = ctx.lib(sdof.response_series, a, dt, periods, xi)
+    ru, rv, ra = ctx.lib(sdof.response_series, gen.as_container(case["rec"], a), dt, periods, xi)
+    if case["rec"].get("as"):
+        ctx.cls("as=" + case["rec"]["as"])
     T = np.array([float(r) * dt for r in case["ratios"]])
     s = 1 if case["lead0"] else 0
     n = len(a)
@@ -213,7 +215,7 @@ def entry_points(case, ctx):
     ctx.nt(bool(np.any(a != 0)))
     periods = _periods(case)
     r1 = ctx.lib(sdof.response_series, a, dt, periods, xi)
-    r2 = ctx.lib(sdof.nigam_and_jennings_response, a, dt, periods, xi)
+    r2 = ctx.lib(sdof.nigam_and_jennings_response, gen.as_container(case["rec"], a), dt, periods, xi)
     r3 = ctx.lib(sdof.response_series, [float(x) for x in a], dt, periods, xi)
     asig = ctx.lib(eqsig.AccSignal, a, dt)
     r4 = ctx.lib(asig.response_series, response_times=periods, xi=xi)
